@@ -180,7 +180,7 @@ package callbacks
 //@   match calldyn Config.NowFunc
 //@   in callbacks.ConvertToAssignments
 //@   min-sites 5
-//@   assert map-gives-neither-spelling: defined(dbName) ==> value[field.Name] == nil && value[field.DBName] == nil [C10]
+//@   assert map-gives-neither-spelling: defined(dbName) && !defined(isDiffSchema) ==> value[field.Name] == nil && value[field.DBName] == nil [C10]
 //@ site update-respects-select
 //@   match calldyn local:assignValue
 //@   in callbacks.ConvertToAssignments
